@@ -95,12 +95,16 @@ impl<'i> Parser<'i> {
         &&& n_adv(self.events@) == self.pos
         &&& nested(self.events@)
         &&& depth(self.events@) >= 0
+        &&& self.depth <= MAX_DEPTH
     }
 }
 // frame: what every grammar function leaves alone
 spec fn is_open(s: Seq<Event>, i: int) -> bool { 0 <= i < s.len() && s[i] is Open }
-spec fn ext(o: Parser, n: Parser) -> bool {
+spec fn ext(o: Parser, n: Parser) -> bool { extd(o, n, 0) }
+// ... with the nesting counter changed by dd (only Parser::enter / Parser::leave have dd != 0)
+spec fn extd(o: Parser, n: Parser, dd: int) -> bool {
     &&& n.wf()
+    &&& n.depth == o.depth + dd
     &&& n.tokens@ == o.tokens@
     &&& n.tokens_raw@ == o.tokens_raw@
     &&& n.src@ == o.src@
